@@ -1,5 +1,7 @@
 import EdpVerif.Lemmas.Send
 import EdpVerif.Lemmas.SendSched
+import EdpVerif.Lemmas.SendAll
+import EdpVerif.Lemmas.SendSchedF
 /-
 C07 — each send operation emits exactly one well-formed frame with the right content.
 Property theorems only; helper lemmas live in EdpVerif/Lemmas/Send.lean and SendSched.lean.
@@ -9,11 +11,15 @@ Reading guide.  `sendOp c order op` is the list of writes of one `Connection` op
 `itemFor op.den` is the control tuple the protocol assigns to the operation, followed by its payload;
 `OpOk op` says the arguments are values of the Rust types (UTF-8 names, 32-bit fields, `u64` id) whose preserved
 node-local bytes, if any, denote the same identifier; `Reads env b v` says the bytes `b` are an encoding of `v`.
-Term-level conformance of the payload encoder is C01's subject: the one-frame theorems take it as the hypothesis
-`hpay` (and `C07_basic_payload_reads` discharges it for integers, atoms, identifiers and tuples of these).
+`PayOk op` is C01's guard on the payload (`wfT`: a value of the Rust type within the decoder's limits, identifiers inside
+the payload in plain form; `finiteFloats`: no NaN/infinity, which C01_valid_not_for_nan shows are not valid encodings):
+within it the payload's bytes are read by the independent reader as the payload's value — C01's validity theorem
+(`spec_enc`), used here to discharge what used to be a hypothesis of the one-frame theorems.
+`runOps c calls` is a SEQUENCE of operations on one connection, each with a `Fate` (all writes complete, or the operation
+stops during write `i` after `k` bytes: I/O error, header-mode write timeout, future dropped); `sendOpF` is one step of it.
 -/
 namespace Edp.Props.C07
-open Edp Edp.Send Edp.Spec Edp.Spec.Wire
+open Edp Edp.Send Edp.Spec Edp.Spec.Wire Edp.Term
 open Edp.Impl.Handshake (ConnState)
 
 /-! ### the gate -/
@@ -130,14 +136,14 @@ theorem C07_oversized_frame_refused (c : Conn) (order : List Bytes) (op : Op) (m
 
 /-- pass-through mode: the bytes of a successful operation, followed by any further bytes, are read as the frame the
 protocol assigns to the operation and then whatever the further bytes are; in particular the operation's bytes
-alone are exactly that one frame -/
+alone are exactly that one frame.  Every operation, every payload within C01's guard. -/
 theorem C07_one_frame_pass_through (c : Conn) (order : List Bytes) (op : Op) (ws : List Bytes)
-    (h : sendOp c order op = .ok ws) (hpt : usePassThrough c = true) (hok : OpOk op)
-    (hpay : ∀ m b, op.payload = some m → enc [] m = .ok b → Reads {} b m.den) (cache : Cache) (rest : Bytes) :
+    (h : sendOp c order op = .ok ws) (hpt : usePassThrough c = true) (hok : OpOk op) (hpay : PayOk op)
+    (cache : Cache) (rest : Bytes) :
     readFramesFrom .passThrough cache (ws.flatten ++ rest) =
         (readFramesFrom .passThrough cache rest).map (itemFor op.den :: ·) ∧
       readFrames .passThrough ws.flatten = some [itemFor op.den] := by
-  obtain ⟨body, hflat, hlen, hne, hrb⟩ := pt_frame c order op ws h hpt hok hpay
+  obtain ⟨body, hflat, hlen, hne, hrb⟩ := pt_frame_wf c order op ws h hpt hok hpay
   constructor
   · rw [hflat]
     exact readFrames_cons .passThrough cache body rest hlen hne _ cache (hrb cache)
@@ -149,14 +155,12 @@ theorem C07_one_frame_pass_through (c : Conn) (order : List Bytes) (op : Op) (ws
 /-- distribution-header mode: the same, for every order in which the encoder's hash set enumerated the atoms and
 whatever the receiver's atom cache holds (every reference of the header is a new entry) -/
 theorem C07_one_frame_dist_header (c : Conn) (order : List Bytes) (op : Op) (ws : List Bytes)
-    (h : sendOp c order op = .ok ws) (hpt : usePassThrough c = false) (hok : OpOk op)
-    (hatoms : ∀ m, op.payload = some m → ∀ a ∈ collectAtoms m, validUtf8 a = true)
-    (hpay : ∀ env m b, EnvFor order env → op.payload = some m → enc order m = .ok b → Reads env b m.den)
+    (h : sendOp c order op = .ok ws) (hpt : usePassThrough c = false) (hok : OpOk op) (hpay : PayOk op)
     (cache : Cache) (rest : Bytes) :
     (∃ cache', readFramesFrom .distHeader cache (ws.flatten ++ rest) =
         (readFramesFrom .distHeader cache' rest).map (itemFor op.den :: ·)) ∧
       readFramesFrom .distHeader cache ws.flatten = some [itemFor op.den] := by
-  obtain ⟨body, hflat, hlen, hne, hrb⟩ := hdr_frame c order op ws h hpt hok hatoms hpay
+  obtain ⟨body, hflat, hlen, hne, hrb⟩ := hdr_frame_wf c order op ws h hpt hok hpay
   obtain ⟨cache', hc'⟩ := hrb cache
   constructor
   · refine ⟨cache', ?_⟩
@@ -167,6 +171,15 @@ theorem C07_one_frame_dist_header (c : Conn) (order : List Bytes) (op : Op) (ws 
     rw [hflat]
     simpa using this
 
+example : readFramesFrom .distHeader [((0, 0), [120])]
+    (wireOf (sendOp hdrConn [[], [111, 107], [98, 64, 104]] (.send pA pB (.tuple [.atom [111, 107], .float 0, .map [(.int 1, .bin [7])]])))) =
+    some [.msg (.tuple [.int 2, .atom [], pidDen pB]) (some (.tuple [.atom [111, 107], .float 0, .map [(.int 1, Value.mkBits [7] 8)]]))] := by
+  obtain ⟨ws, h⟩ : ∃ ws, sendOp hdrConn [[], [111, 107], [98, 64, 104]]
+      (.send pA pB (.tuple [.atom [111, 107], .float 0, .map [(.int 1, .bin [7])]])) = .ok ws := ⟨_, rfl⟩
+  rw [h]
+  exact (C07_one_frame_dist_header hdrConn _ _ ws h rfl pB_ok
+    (fun m hm => by cases hm; exact ⟨by decide, by decide⟩) _ []).2
+
 /-- link, unlink, monitor and demonitor (no payload): exactly one frame with the protocol's control tuple, in
 whichever mode was negotiated, with no hypothesis beyond the argument types -/
 theorem C07_one_frame_control_only (c : Conn) (order : List Bytes) (op : Op) (ws : List Bytes)
@@ -176,12 +189,11 @@ theorem C07_one_frame_control_only (c : Conn) (order : List Bytes) (op : Op) (ws
   have hit : itemFor op.den = .msg (controlFor op.den) none := by simp [itemFor, payloadFor_den, hp]
   cases hpt : usePassThrough c with
   | true =>
-    have := (C07_one_frame_pass_through c order op ws h hpt hok (fun m b hm => by rw [hp] at hm; cases hm) cache []).1
+    have := (C07_one_frame_pass_through c order op ws h hpt hok (fun m hm => by rw [hp] at hm; cases hm) cache []).1
     simp only [List.append_nil, readFrames_nil] at this
     simpa [hit] using this
   | false =>
-    have := (C07_one_frame_dist_header c order op ws h hpt hok (fun m hm => by rw [hp] at hm; cases hm)
-      (fun env m b _ hm => by rw [hp] at hm; cases hm) cache []).2
+    have := (C07_one_frame_dist_header c order op ws h hpt hok (fun m hm => by rw [hp] at hm; cases hm) cache []).2
     simpa [hit] using this
 
 example : readFrames .passThrough (wireOf (sendOp ptConn [] (.monitor pA pB rA))) =
@@ -246,16 +258,22 @@ example : Basic (.tuple [.int 1, .atom [111, 107], .pid pA, .list [.bin [1, 2], 
       · exact .bin _
       · exact .big _ _ (by decide))
 
-/-- a send of such a payload is exactly one SEND frame followed by that payload, in pass-through mode -/
-theorem C07_send_basic_payload (c : Conn) (order : List Bytes) (frm to : PidF) (m : Term) (ws : List Bytes)
-    (h : sendOp c order (.send frm to m) = .ok ws) (hpt : usePassThrough c = true) (ht : PidOk to) (hm : Basic m) :
+/-- a send of ANY payload within C01's guard is exactly one SEND frame followed by that payload's value, in pass-through
+mode (maps, funs, bit strings, strings, nested to any depth; not only the leaves of the theorem above) -/
+theorem C07_send_any_payload (c : Conn) (order : List Bytes) (frm to : PidF) (m : Term) (ws : List Bytes)
+    (h : sendOp c order (.send frm to m) = .ok ws) (hpt : usePassThrough c = true) (ht : PidOk to)
+    (hw : wfT m = true) (hfin : finiteFloats m = true) :
     readFrames .passThrough ws.flatten = some [.msg (.tuple [.int 2, .atom [], pidDen to]) (some m.den)] := by
   have := (C07_one_frame_pass_through c order _ ws h hpt (show OpOk (.send frm to m) from ht)
-    (fun m' b hm' hb => by
+    (fun m' hm' => by
       have : m' = m := by simp [Op.payload] at hm'; exact hm'.symm
       subst this
-      exact reads_basic envFor_nil m' hm b hb) [] []).2
+      exact ⟨hw, hfin⟩) [] []).2
   simpa [itemFor, Op.den, controlFor, payloadFor, unused] using this
+
+example : wfT (.map [(.atom [107], .list [.float 0, .str [104, 105]]), (.int 2, .bits [255, 128] 1)]) = true ∧
+    finiteFloats (.map [(.atom [107], .list [.float 0, .str [104, 105]]), (.int 2, .bits [255, 128] 1)]) = true := by
+  decide
 
 /-! ### concurrent senders through one connection -/
 
@@ -302,8 +320,7 @@ example : (run (fun t => if t < 2 then [[[1], [2]], [[3]]] else []) St.init [0, 
 schedule, when no operation is in progress the peer reads exactly the frames the protocol assigns to the operations,
 whole, in lock-acquisition order -/
 theorem C07_concurrent_senders_read_whole_frames (c : Conn) (hpt : usePassThrough c = true) (ops : Nat → List Op)
-    (hall : ∀ t op, op ∈ ops t → (∃ ws, sendOp c [] op = .ok ws) ∧ OpOk op ∧
-      ∀ m b, op.payload = some m → enc [] m = .ok b → Reads {} b m.den)
+    (hall : ∀ t op, op ∈ ops t → (∃ ws, sendOp c [] op = .ok ws) ∧ OpOk op ∧ PayOk op)
     (σ : List Nat) :
     let prog := fun t => (ops t).map (fun op => writesOf (sendOp c [] op))
     let st := run prog St.init σ
@@ -323,9 +340,328 @@ theorem C07_concurrent_senders_read_whole_frames (c : Conn) (hpt : usePassThroug
   | some op =>
     have hmem : op ∈ ops p.1 := List.mem_of_getElem? hop
     obtain ⟨⟨ws, hws⟩, hok, hpay⟩ := hall p.1 op hmem
-    obtain ⟨body, hflat, hlen, hne, hrb⟩ := pt_frame c [] op ws hws hpt hok hpay
+    obtain ⟨body, hflat, hlen, hne, hrb⟩ := pt_frame_wf c [] op ws hws hpt hok hpay
     refine ⟨body, ?_, hlen, hne, ?_⟩
     · simp [frameOf, hget, hop, hws, writesOf, hflat]
     · intro cache; simpa using hrb cache
+
+/-! ### sequences of operations on ONE connection; operations that stop in the middle of their frame -/
+
+/-- any sequence of operations on one connection, in whichever framing mode it negotiated, each header with whatever atom
+order the encoder's hash set produced, read by a peer whose atom cache holds anything at the start and is carried from
+frame to frame: when every write completes, the peer reads exactly one item per operation that returned `Ok`, in order,
+and nothing else (operations refused before their first write contribute nothing) -/
+theorem C07_sequence_on_one_connection (c : Conn) (calls : List Call)
+    (hall : ∀ x ∈ calls, OpOk x.op ∧ PayOk x.op) (hwhole : ∀ x ∈ calls, x.fate = .whole) (cache : Cache) :
+    readFramesFrom (modeOf c) cache (runOps c calls).1 = some (itemsOf calls (runOps c calls).2) := by
+  obtain ⟨whole, tail, h1, h2, h3⟩ := runOps_wire c calls hall cache
+  rcases h3 with h3 | ⟨x, hx, hne, _⟩
+  · rw [h1, h3, List.append_nil]; exact h2
+  · exact absurd (hwhole x hx) hne
+
+example : (runOps hdrConn [⟨[[98, 64, 104], [97, 64, 104]], .link pA pB, .whole⟩, ⟨[[97, 64, 104], [98, 64, 104]], .link pA pB, .whole⟩]).2 = [.ok, .ok] := by
+  rfl
+
+/-- the same with operations that may stop in the middle of their frame (`Fate.cut`: I/O error, the write timeout of
+header mode, the future dropped at an await point), at any position of any sequence: the stream is the whole frames of the
+operations that returned `Ok` — read by the peer as exactly their items — followed by nothing, or by a prefix of the
+frame of ONE operation that was cut.  No byte of any other operation follows a partial frame. -/
+theorem C07_stream_is_whole_frames_then_at_most_one_partial (c : Conn) (calls : List Call)
+    (hall : ∀ x ∈ calls, OpOk x.op ∧ PayOk x.op) (cache : Cache) :
+    ∃ whole tail, (runOps c calls).1 = whole ++ tail ∧
+      readFramesFrom (modeOf c) cache whole = some (itemsOf calls (runOps c calls).2) ∧
+      (tail = [] ∨ ∃ x ∈ calls, x.fate ≠ .whole ∧ ∃ ws rest, sendOp c x.order x.op = .ok ws ∧ ws.flatten = tail ++ rest) :=
+  runOps_wire c calls hall cache
+
+/-- once an operation was cut, at whatever point of whatever history, nothing more is written to the stream and every
+later operation fails with the state error -/
+theorem C07_nothing_is_written_after_a_partial_frame (c : Conn) (pre : List Call) (x : Call) (post : List Call)
+    (h : (sendOpF (connAfter c pre) x.order x.op x.fate).2.2 = .cut) :
+    (runOps c (pre ++ x :: post)).1 = (runOps c (pre ++ [x])).1 ∧
+    (runOps c (pre ++ x :: post)).2 = (runOps c (pre ++ [x])).2 ++ post.map (fun _ => .err .invalidState) :=
+  runOps_after_cut c pre x post h
+
+example : runOps ptConn [⟨[], .link pA pB, .whole⟩, ⟨[], .link pB pA, .cut 2 3⟩, ⟨[], .link pA pB, .whole⟩] =
+    ([0,0,0,42,112,131,104,3,97,1,88,119,3,97,64,104,0,0,0,1,0,0,0,2,0,0,0,3,88,119,3,98,64,104,255,255,255,255,0,0,0,0,0,0,0,7,
+      0,0,0,42,112,131,104,3], [.ok, .cut, .err .invalidState]) := by
+  rfl
+
+/-- a cut operation leaves the connection closed (`FrameWrite::drop`: `transport.close()`, `handshake.disconnect()`), and
+only a cut or a missing stream does: an operation that succeeds or is refused before its first write leaves the
+connection as it was -/
+theorem C07_only_an_unfinished_frame_closes_the_connection (c : Conn) (order : List Bytes) (op : Op) (fate : Fate) :
+    ((sendOpF c order op fate).2.2 = .cut → (sendOpF c order op fate).1 = c.closed) ∧
+    ((sendOpF c order op fate).2.2 = .ok → (sendOpF c order op fate).1 = c) ∧
+    (∀ e, (sendOpF c order op fate).2.2 = .err e → e ≠ .noStream →
+      (sendOpF c order op fate).1 = c ∧ (sendOpF c order op fate).2.1 = []) := by
+  refine ⟨sendOpF_cut_closed c order op fate, ?_, ?_⟩
+  · intro h
+    unfold sendOpF at h ⊢
+    cases hs : sendOp c order op with
+    | error e => rw [hs] at h; cases e <;> simp at h
+    | ok ws =>
+      rw [hs] at h
+      cases fate with
+      | whole => rfl
+      | cut i k => simp at h
+  · intro e h hne
+    unfold sendOpF at h ⊢
+    cases hs : sendOp c order op with
+    | error e' =>
+      rw [hs] at h
+      cases e' <;> simp at h <;> subst h <;> simp at hne ⊢
+    | ok ws =>
+      rw [hs] at h
+      cases fate <;> simp at h
+
+example : (sendOpF hdrConn [[98, 64, 104], [97, 64, 104]] (.link pA pB) (.cut 0 9)).1.state = .disconnected := by rfl
+
+/-! ### what is read off the source -/
+
+/-- the write sequences of `send_control_message`, the operation table and the framing constants are regenerated from
+connection.rs / encoder.rs on every run and are the ones the protocol's frame needs: every write sits inside a
+`FrameWrite` guard, the pass-through branches write length, marker, control[, payload] in this order with the three H3
+points between them, header mode writes one buffer (length, then the encoder's bytes); each of the six operations starts
+with the `is_connected()` gate, builds the variant the protocol assigns to it and hands over a payload exactly for the two
+sends; an unfinished frame closes the transport and resets the handshake state.  The model INTERPRETS these tables
+(`ptWrites`, `hdrWrites`, `DIST_HDR_ATOM_CACHE`); this theorem compares them with the expectation. -/
+theorem C07_source_tables_are_the_protocols :
+    Gen.C07_SEND_BRANCHES =
+      [["begin", "stream", "write_u32:frame_len", "yield:send:after_len", "write_u8:PASS_THROUGH", "yield:send:after_marker",
+        "write_all:control_encoded", "yield:send:after_control", "write_all:msg_encoded", "flush", "complete"],
+       ["begin", "stream", "write_u32:frame_len", "yield:send:after_len", "write_u8:PASS_THROUGH", "yield:send:after_marker",
+        "write_all:control_encoded", "flush", "complete"],
+       ["begin", "stream", "write_all:buf", "flush", "complete"]] ∧
+    Gen.C07_FRAME_LEN_EXPRS = ["1+control_encoded.len()+msg_encoded.len()", "1+control_encoded.len()"] ∧
+    Gen.C07_HEADER_ENCODERS = ["encode_with_dist_header_multi:control_term,msg", "encode_with_dist_header:control_term"] ∧
+    Gen.C07_HEADER_BUFFER = [["put_u32:Self::frame_length(encoded.len())?", "put_slice:encoded"],
+                             ["put_u32:Self::frame_length(encoded.len())?", "put_slice:encoded"]] ∧
+    Gen.C07_CONN_OPS = [("send_message", "Send", true, true), ("send_to_name", "RegSend", true, true),
+      ("link", "Link", false, true), ("unlink", "UnlinkId", false, true), ("monitor", "MonitorP", false, true),
+      ("demonitor", "DemonitorP", false, true)] ∧
+    Gen.C07_INCOMPLETE_FRAME_ACTIONS = ["transport.close", "handshake.disconnect"] ∧
+    (Gen.C07_PASS_THROUGH = 112 ∧ Gen.C07_VERSION_TAG = 131 ∧ Gen.C07_DIST_HEADER = 68) ∧
+    (Gen.C07_HEADER_MAX_ATOMS = 2 ^ 8 - 1 ∧ Gen.C07_HEADER_ATOM_LEN_LIMIT = "u16::MAX") ∧
+    Send.DIST_HDR_ATOM_CACHE = 0x2000 := by
+  decide
+
+/-- and the model's writes are these sequences: whatever the lengths and the encoded terms -/
+theorem C07_model_writes_are_the_source_steps (n : Nat) (ce me enc : Bytes) :
+    ptWrites true n ce me = [be32 n, [112], ce, me] ∧ ptWrites false n ce me = [be32 n, [112], ce] ∧
+    hdrWrites true enc = [be32 enc.length ++ enc] ∧ hdrWrites false enc = [be32 enc.length ++ enc] :=
+  ⟨ptWrites_payload n ce me, ptWrites_control n ce me, hdrWrites_eq true enc, hdrWrites_eq false enc⟩
+
+/-- the operation table read off the source agrees with the model's `Op.control` / `Op.payload`: for every operation the
+variant named in the source is the one the model builds, and a payload is handed over exactly when the model has one -/
+theorem C07_model_ops_are_the_source_ops (op : Op) :
+    ∃ fn, (fn, (match op.control with | .known v _ => v | _ => ""), op.payload.isSome, true) ∈ Gen.C07_CONN_OPS := by
+  cases op
+  · exact ⟨"send_message", by simp [Op.control, Op.payload, Gen.C07_CONN_OPS]⟩
+  · exact ⟨"send_to_name", by simp [Op.control, Op.payload, Gen.C07_CONN_OPS]⟩
+  · exact ⟨"link", by simp [Op.control, Op.payload, Gen.C07_CONN_OPS]⟩
+  · exact ⟨"unlink", by simp [Op.control, Op.payload, Gen.C07_CONN_OPS]⟩
+  · exact ⟨"monitor", by simp [Op.control, Op.payload, Gen.C07_CONN_OPS]⟩
+  · exact ⟨"demonitor", by simp [Op.control, Op.payload, Gen.C07_CONN_OPS]⟩
+
+/-! ### the node-level operations (node.rs) -/
+
+/-- the steps of every node-level operation that concern the connection, read off node.rs: the connection is looked up
+in the table, whatever the operation takes from the node's counters (the sender pid of a send, the unlink id, the
+monitor reference) is taken BEFORE the lock is requested, there is exactly one `lock().await`, exactly one `Connection`
+call after it — the one the model's `NodeOp.connOp` performs — and the only other way out is `NodeNotConnected` -/
+theorem C07_node_operations_lock_once_around_one_call (op : NodeOp) :
+    ∃ pre, Gen.C07_NODE_OPS.lookup op.fn = some (pre ++ ["lock", "call:" ++ op.method, "not_connected"]) ∧
+      "lookup" ∈ pre ∧
+      pre.all (fun s => s ∈ ["lookup", "draw:pid", "draw:unlink_id+1", "draw:ref", "book:add_link", "book:remove_link",
+        "book:add_monitor", "book:remove_monitor"]) = true := by
+  cases op
+  · exact ⟨["lookup", "draw:pid"], by simp only [NodeOp.fn, NodeOp.method]; decide, by decide, by decide⟩
+  · exact ⟨["book:add_link", "book:add_link", "lookup"], by simp only [NodeOp.fn, NodeOp.method]; decide, by decide, by decide⟩
+  · exact ⟨["book:remove_link", "book:remove_link", "lookup", "draw:unlink_id+1"], by simp only [NodeOp.fn, NodeOp.method]; decide, by decide, by decide⟩
+  · exact ⟨["draw:ref", "book:add_monitor", "lookup"], by simp only [NodeOp.fn, NodeOp.method]; decide, by decide, by decide⟩
+  · exact ⟨["book:remove_monitor", "lookup"], by simp only [NodeOp.fn, NodeOp.method]; decide, by decide, by decide⟩
+
+/-- a node-level operation towards a node there is no connection to (before `Node::connect` completed the handshake and
+inserted the connection, or after the receiver removed it) fails with `NodeNotConnected` and writes nothing; with a
+connection it is exactly the `Connection` operation: the same bytes, the same outcome, the same connection afterwards -/
+theorem C07_node_operation_is_the_connection_operation (table : Option Conn) (order : List Bytes) (d : Drawn)
+    (op : NodeOp) (fate : Fate) :
+    (table = none → nodeOp table order d op fate = (none, [], .notConnected)) ∧
+    (∀ c, table = some c → nodeOp table order d op fate =
+      (some (sendOpF c order (op.connOp d) fate).1, (sendOpF c order (op.connOp d) fate).2.1,
+        .conn (sendOpF c order (op.connOp d) fate).2.2)) := by
+  constructor
+  · intro h; subst h; rfl
+  · intro c h; subst h; rfl
+
+example : (nodeOp (some ptConn) [] ⟨pA, 0, rA⟩ (.unlink pA pB) .whole).2.2 = .conn .ok ∧
+    (nodeOp none [] ⟨pA, 0, rA⟩ (.unlink pA pB) .whole).2.1 = [] := by
+  constructor <;> rfl
+
+/-- each caller's frames reach the peer in the order it issued them: in the list of items the peer reads (theorem above),
+the items of task `u` are, in order, the items of `u`'s operations number 0, 1, 2, … up to the number it has started -/
+theorem C07_each_callers_frames_in_issue_order (c : Conn) (hpt : usePassThrough c = true) (ops : Nat → List Op)
+    (hall : ∀ t op, op ∈ ops t → (∃ ws, sendOp c [] op = .ok ws) ∧ OpOk op ∧ PayOk op)
+    (σ : List Nat) (u : Nat) :
+    let prog := fun t => (ops t).map (fun op => writesOf (sendOp c [] op))
+    let st := run prog St.init σ
+    st.lock = none →
+      ∃ items, readFrames .passThrough st.wire = some items ∧ items.length = st.acq.length ∧
+        ((st.acq.zip items).filter (fun p => p.1.1 = u)).map (·.2) =
+          (List.range (started st u)).map (fun i => match (ops u)[i]? with | some op => itemFor op.den | none => .tick) := by
+  intro prog st hq
+  have hread := C07_concurrent_senders_read_whole_frames c hpt ops hall σ hq
+  have hord := C07_each_task_in_issue_order prog σ u
+  refine ⟨_, hread, List.length_map _, ?_⟩
+  -- the items are a function of the acquisitions
+  have hz : ∀ (acq : List (Nat × Nat)) (f : Nat × Nat → Item),
+      ((acq.zip (acq.map f)).filter (fun p => p.1.1 = u)).map (·.2) = ((acq.filter (fun p => p.1 = u)).map f) := by
+    intro acq f
+    induction acq with
+    | nil => rfl
+    | cons a as ih =>
+      by_cases ha : a.1 = u
+      · simp [ha, ih]
+      · simp [ha, ih]
+  rw [hz]
+  have hf : ∀ (l : List (Nat × Nat)), (∀ p ∈ l, p.1 = u) →
+      l.map (fun p => match (ops p.1)[p.2]? with | some op => itemFor op.den | none => Item.tick) =
+      (l.map (·.2)).map (fun i => match (ops u)[i]? with | some op => itemFor op.den | none => Item.tick) := by
+    intro l hl
+    induction l with
+    | nil => rfl
+    | cons a as ih =>
+      have ha := hl a (by simp)
+      simp only [List.map_cons, List.map_map] at ih ⊢
+      rw [ih (fun p hp => hl p (by simp [hp]))]
+      simp [ha]
+  rw [hf _ (fun p hp => by simpa using (List.mem_filter.mp hp).2)]
+  exact congrArg _ hord
+
+/-! ### distribution-header mode is total: a frame the peer reads, or nothing -/
+
+/-- every operation in distribution-header mode, every argument and payload within the guards, every atom order, every
+receiver cache: EITHER it succeeds and its bytes are read by the independent reader as exactly the protocol's control
+tuple and the payload, OR it fails and not one byte is written.  There is no third outcome (a frame that is written and
+cannot be read) — in particular at the limits of the header: the number of distinct atoms of control tuple and payload
+together (the one-byte `NumberOfAtomCacheRefs`), atom lengths (two bytes with LongAtoms), the 32-bit frame length. -/
+theorem C07_header_mode_frame_or_nothing (c : Conn) (order : List Bytes) (op : Op) (hpt : usePassThrough c = false)
+    (hok : OpOk op) (hpay : PayOk op) (cache : Cache) :
+    (∃ ws, sendOp c order op = .ok ws ∧ readFramesFrom .distHeader cache ws.flatten = some [itemFor op.den]) ∨
+    (∃ e, sendOp c order op = .error e ∧ wireOf (sendOp c order op) = []) := by
+  cases h : sendOp c order op with
+  | ok ws => exact Or.inl ⟨ws, rfl, (C07_one_frame_dist_header c order op ws h hpt hok hpay cache []).2⟩
+  | error e => exact Or.inr ⟨e, rfl, rfl⟩
+
+/-- the limit on the number of atoms in one header, as read off encoder.rs (`Gen.C07_HEADER_MAX_ATOMS`), is the largest
+count the header's one-byte field can carry, and the model enforces exactly it: an operation whose control tuple and
+payload together name more distinct atoms than that is refused with nothing written, whatever the order; with that many
+or fewer the count byte of the header is the count itself (no wrap-around) -/
+theorem C07_header_atom_count_fits_one_byte (c : Conn) (order : List Bytes) (op : Op) (hpt : usePassThrough c = false) :
+    Gen.C07_HEADER_MAX_ATOMS + 1 = 2 ^ 8 ∧
+    (order.length > Gen.C07_HEADER_MAX_ATOMS → ∃ e, sendOp c order op = .error e ∧ wireOf (sendOp c order op) = []) ∧
+    (∀ ws, sendOp c order op = .ok ws → order ≠ [] →
+      ∃ hb, ws = [be32 hb.length ++ hb] ∧ (hb.drop 2).head? = some (UInt8.ofNat order.length) ∧ order.length < 2 ^ 8) := by
+  refine ⟨by decide, ?_, ?_⟩
+  · intro hbig
+    cases h : sendOp c order op with
+    | error e => exact ⟨e, rfl, rfl⟩
+    | ok ws =>
+      exfalso
+      obtain ⟨_, _, hb, hd, _, _⟩ := sendOp_hdr_shape c order op ws h hpt
+      unfold distHeader at hd
+      simp only at hd
+      split at hd
+      · simp at hd
+      · split at hd
+        · rename_i hemp
+          have : order = [] := by simpa using hemp
+          subst this
+          simp at hbig
+        · simp [hbig] at hd
+  · intro ws h hne
+    obtain ⟨_, _, hb, hd, hws, _⟩ := sendOp_hdr_shape c order op ws h hpt
+    refine ⟨hb, hws, ?_⟩
+    unfold distHeader at hd
+    simp only at hd
+    split at hd
+    · simp at hd
+    · split at hd
+      · rename_i hemp
+        have : order = [] := by simpa using hemp
+        exact absurd this hne
+      · split at hd
+        · simp at hd
+        · rename_i hle
+          split at hd
+          · simp at hd
+          · split at hd
+            · rename_i b hb'
+              injection hd with hd
+              subst hd
+              have : Gen.C07_HEADER_MAX_ATOMS = 255 := rfl
+              exact ⟨by simp, by omega⟩
+            · simp at hd
+
+example : ∃ e, sendOp hdrConn ((List.range 256).map fun i => [UInt8.ofNat i]) (.link pA pB) = .error e :=
+  (C07_header_atom_count_fits_one_byte hdrConn _ (.link pA pB) rfl).2.1 (by simp [Gen.C07_HEADER_MAX_ATOMS]) |>.imp fun _ h => h.1
+
+/-! ### concurrent senders, with operations that stop in the middle of their frame -/
+
+/-- every schedule of any number of tasks, whatever the fate of every operation (all writes complete, or it stops during
+write `i` after `k` bytes): whenever no operation is in progress, the bytes on the stream and the state of the connection
+are exactly those of the same operations executed ONE AFTER THE OTHER in the order in which the lock was acquired for
+them (`seqRun`: an operation on a closed connection writes nothing, a cut operation writes its prefix and closes) -/
+theorem C07_every_schedule_is_the_sequential_run_in_lock_order (prog : Nat → List TOp) (σ : List Nat)
+    (h : (runF prog StF.init σ).lock = none) :
+    ((runF prog StF.init σ).wire, (runF prog StF.init σ).closed) = seqRun prog (runF prog StF.init σ).acq :=
+  (invF_run prog σ StF.init (invF_init prog)).free h
+
+/-- hence under every schedule the stream is whole frames in lock order, and once an operation was cut: the whole frames
+of the operations acquired before it, the prefix it wrote, and NOT ONE BYTE of any operation acquired after it -/
+theorem C07_no_frame_follows_a_partial_frame (prog : Nat → List TOp) (σ : List Nat)
+    (h : (runF prog StF.init σ).lock = none) :
+    ((runF prog StF.init σ).closed = false ∧
+      (runF prog StF.init σ).wire = ((runF prog StF.init σ).acq.map (fullOf prog)).flatten ∧
+      ∀ p ∈ (runF prog StF.init σ).acq, cutAt prog p = false) ∨
+    ((runF prog StF.init σ).closed = true ∧
+      ∃ a p b op, (runF prog StF.init σ).acq = a ++ p :: b ∧ (prog p.1)[p.2]? = some op ∧ op.isCut = true ∧
+        (∀ q ∈ a, cutAt prog q = false) ∧
+        (runF prog StF.init σ).wire = (a.map (fullOf prog)).flatten ++ op.eff.flatten) := by
+  have hseq := C07_every_schedule_is_the_sequential_run_in_lock_order prog σ h
+  rcases seqFrom_shape prog (runF prog StF.init σ).acq [] with ⟨h1, h2⟩ | ⟨a, p, b, op, hacq, hp, hc, ha, hs⟩
+  · left
+    rw [seqRun, h1] at hseq
+    have hw := congrArg Prod.fst hseq
+    have hcl := congrArg Prod.snd hseq
+    exact ⟨hcl, by simpa using hw, h2⟩
+  · right
+    rw [seqRun, hs] at hseq
+    have hw := congrArg Prod.fst hseq
+    have hcl := congrArg Prod.snd hseq
+    exact ⟨hcl, a, p, b, op, hacq, hp, hc, ha, by simpa using hw⟩
+
+/-- and a closed connection stays silent: whatever the tasks do afterwards, under whatever schedule, the stream does not
+change any more -/
+theorem C07_closed_connection_stays_silent (prog : Nat → List TOp) (σ1 σ2 : List Nat)
+    (h1 : (runF prog StF.init σ1).lock = none) (hc : (runF prog StF.init σ1).closed = true)
+    (h2 : (runF prog StF.init (σ1 ++ σ2)).lock = none) :
+    (runF prog StF.init (σ1 ++ σ2)).wire = (runF prog StF.init σ1).wire ∧
+    (runF prog StF.init (σ1 ++ σ2)).closed = true := by
+  have e1 := C07_every_schedule_is_the_sequential_run_in_lock_order prog σ1 h1
+  have e2 := C07_every_schedule_is_the_sequential_run_in_lock_order prog (σ1 ++ σ2) h2
+  obtain ⟨more, hm⟩ := runF_acq prog σ2 (runF prog StF.init σ1)
+  rw [← runF_append] at hm
+  have hcl : (seqRun prog (runF prog StF.init σ1).acq).2 = true := by
+    rw [← hc]; exact (congrArg Prod.snd e1).symm
+  rw [hm, seqRun_append_closed prog _ more hcl, ← e1] at e2
+  exact ⟨congrArg Prod.fst e2, (congrArg Prod.snd e2).trans hc⟩
+
+example : let prog : Nat → List TOp := fun t => if t < 2 then [⟨[[1], [2], [3]], .cut 1 0⟩, ⟨[[4]], .whole⟩] else []
+    (runF prog StF.init [0, 0, 1, 0, 0, 1, 1, 1, 0, 0, 1, 1, 0, 1, 0]).wire = [1] ∧
+    (runF prog StF.init [0, 0, 1, 0, 0, 1, 1, 1, 0, 0, 1, 1, 0, 1, 0]).closed = true ∧
+    (runF prog StF.init [0, 0, 1, 0, 0, 1, 1, 1, 0, 0, 1, 1, 0, 1, 0]).lock = none ∧
+    (runF prog StF.init [0, 0, 1, 0, 0, 1, 1, 1, 0, 0, 1, 1, 0, 1, 0]).acq = [(0, 0), (1, 0), (1, 1), (0, 1)] := by
+  decide
 
 end Edp.Props.C07
